@@ -102,6 +102,13 @@ CLAIMED["C13"] = dict(
     note="Trusted: z3, the proxy engine, ref/rvjump.py, the unrelaxed link as oracle. Five genuine relaxation defects (shrink decided on pre-relaxation distances: jump/branch grows out of range and wraps or fails; jal rd becomes c.jal = jal x1; following sections misaligned) are listed as known findings with regions derived from the unrelaxed link. Outside: emulated execution of the relaxed program, > 2 memories / 5 jumps, padding sizes other than the listed boundary fillers.",
     technique=TECH)
 
+TECH_TV = "solver-checked translation validation: the real compiler stage runs concretely on each program of a stated finite family; its output is executed symbolically (ref semantics on z3 bit-vectors/arrays via the symx engine) next to the reference semantics of its input with the same symbolic arguments, memory and external results; z3 decides equality on every path; counterexamples replayed concretely"
+CLAIMED["C37"] = dict(
+    level="translation_validation", design="§4 C37",
+    text="Translation validation of the real C3 front end (c3_to_ir: lexer, parser, type checker, coercions, constant evaluation, code generator) on a stated finite family of abstract C3 programs (every accepted pair of integer operand types x every operator, all conversions, short-circuit shapes, if/while/for/switch skeletons, calls, pointers/structs/arrays, constants and initialisers, seeded random programs; 284 quick / 3127 thorough incl. arm, riscv, msp430, avr). The IR ppci produces is executed by ref/irsem.py next to a reference evaluator of C3 (ref/c3sem.py); for ALL argument values and initial global contents the solver decides per path that the returned value and final globals are what C3 prescribes and that the compiled code stays defined whenever the source program is.",
+    note="Trusted: z3, ref/irsem.py, ref/c3sem.py (fixed-width arithmetic in the operator's common type, no integer promotion as the language documents itself; agrees with gcc -fwrapv on ~7800 concrete points at build time), the engine. Loops bounded by construction; source UB is a premise. Outside: floats, strings, imports, pointer arithmetic/object layout, literals beyond int, constants of types other than int/byte (front-end crash: C28 territory), big-endian targets, the back ends.",
+    technique=TECH_TV)
+
 NOT_APPLICABLE = {
     "C04": "property is about native execution of whole gcc/ppci-compiled programs; no x86-64 semantics model is in reach and running binaries is enumeration of concrete runs, not solver-based checking",
     "C06": "dataflow property over uninterpreted instruction semantics: a checker would be tag propagation in which a solver decides nothing",
